@@ -1,0 +1,12 @@
+//go:build verif
+
+package pop3
+
+import "net"
+
+// VerifC04Serve runs one POP3 session of s on conn, exactly as serve() does for an accepted connection, and returns
+// when the session has ended (the connection is closed by the session).  Verification harness only (property C04).
+func (s *Server) VerifC04Serve(id int, conn net.Conn) {
+	s.wg.Add(1)
+	s.startSession(id, conn)
+}
